@@ -19,6 +19,8 @@ pairs `<present 0|1> <value>`.
   podredef <id> <nonPreemptible> <request: D pairs>        a new pod object (new UID) under the cache key of a deleted pod
   unresobj <id> <uid>                                      Unreserve with the pod object of incarnation <uid> (0 = first)
   podbind <id>                                             OnPodUpdate: the bind update (spec.nodeName set) of a cached pod
+  gate <0|1>                                               feature gate ElasticQuotaGuaranteeUsage (default 0): quota objects
+                                                           read from now on yield allow-lent = false (declaredLent)
 Output: `v <status code>` after `att`; after every other op one line per group sorted by name:
   `q <name> <D used> <D nonPreemptibleUsed> <D selfUsed> <D selfNonPreemptibleUsed>`.
 Anything the model does not cover (unregistered parent, a new parent inside the moved subtree, …) ⇒ `bad-op`.
@@ -44,16 +46,17 @@ def dump (s : State) : List String :=
 structure DState where
   st  : State := init 0
   out : List String := []
+  gu  : Bool := false
 
 def bad (s : DState) : DState := { s with out := s.out ++ ["bad-op"] }
 
-def after (s : DState) (st : State) : DState := { st := st, out := s.out ++ dump st }
+def after (s : DState) (st : State) : DState := { s with st := st, out := s.out ++ dump st }
 
 def stepLine (s : DState) (line : String) : DState :=
   match toks line with
   | "dims" :: [d] =>
     match nat? d with
-    | some d => { s with st := init d }
+    | some d => { s with st := init d, gu := false }
     | none => bad s
   | "quota" :: n :: p :: ip :: l :: rest =>
     match nat? n, nat? p, nat? ip, nat? l, ints? rest with
@@ -62,7 +65,7 @@ def stepLine (s : DState) (line : String) : DState :=
       if xs.length ≠ 4 * D || n = rootName || ip > 1 || l > 1 then bad s else
       let mx := mkRL (xs.take (2 * D))
       let mn := mkRL (xs.drop (2 * D))
-      let go := after s (quotaUpdate s.st n p (ip = 1) (l = 1) mx mn)
+      let go := after s (quotaUpdateGated s.gu s.st n p (ip = 1) (l = 1) mx mn)
       if (findQ s.st.quotas p).isNone then bad s else
       match findQ s.st.quotas n with
       | some q =>
@@ -137,6 +140,10 @@ def stepLine (s : DState) (line : String) : DState :=
         else after s (step s.st (.podDelete i)).1
     | none => bad s
   | "cap" :: _ => after s s.st
+  | ["gate", g] =>
+    match nat? g with
+    | some g => if g > 1 then bad s else { s with gu := g = 1 }
+    | none => bad s
   | ["dflt", n] =>
     match nat? n with
     | some n => if (findQ s.st.quotas n).isNone then bad s else after s (step s.st (.setDefault n)).1
